@@ -23,7 +23,11 @@ use crate::{Doc, Node, NodeMatch, Root};
 
 use tree_sitter as ts;
 
+#[cfg(not(feature = "verif-hooks"))]
 use std::collections::VecDeque;
+
+#[cfg(feature = "verif-hooks")]
+use crate::verif_hooks::VecQueue as VecDeque;
 use std::iter::FusedIterator;
 use std::marker::PhantomData;
 
